@@ -33,6 +33,7 @@ TARGETS = {
     ("utype/parser/base.py", "BaseParser.resolve_forward_refs"): "rfr",
     ("utype/parser/base.py", "BaseParser._resolve_forward_refs"): "rfr",
     ("utype/parser/func.py", "FunctionParser.resolve_forward_refs"): "frf",
+    ("utype/parser/cls.py", "ClassParser.resolve_forward_refs"): "crf",      # walks the base classes' parsers first
     ("utype/parser/field.py", "ParserField.resolve_forward_refs"): "fld",
     ("utype/parser/field.py", "ParserField.parse_value"): "pv",
     ("utype/parser/rule.py", "resolve_forward_type"): "rft",
@@ -355,7 +356,11 @@ def program_source(prog, uid="") -> str:
     imp = "import utype\nfrom utype import Schema, Options\nfrom typing import List, Optional, Dict, Union\n"
     if prog["kind"] == "cls":
         body = "".join(f"    f{i}: {_ann(f, uid)} = None\n" for i, f in enumerate(fields))
-        decl = "class A(Schema):\n" + body
+        if prog.get("inherit"):
+            # the pending references live in the base class's parser: the subclass resolves them through it
+            decl = "class Base(Schema):\n" + body + "class A(Base):\n    extra: int = 0\n"
+        else:
+            decl = "class A(Schema):\n" + body
         if prog.get("local"):
             decl = "def _make():\n" + "".join("    " + l + "\n" for l in decl.splitlines()) + "    return A\nA = _make()\n"
     else:
@@ -685,7 +690,7 @@ def probe_registry(case):
 # 3. the check
 # ------------------------------------------------------------------------------------------------
 
-FWD_POINTS = ["rfr", "frf", "fld", "rft", "pv", "tc", "ta", "lrf", "rrf"]
+FWD_POINTS = ["rfr", "frf", "crf", "fld", "rft", "pv", "tc", "ta", "lrf", "rrf"]
 ALL_POINTS = sorted(set(TARGETS.values()))
 MODELLED_ANN = {"ref", "slist", "plain"}
 INF = 10 ** 6
@@ -698,7 +703,7 @@ def modelled(case) -> bool:
         return False
     if sorted(case.get("points") or []) != sorted(FWD_POINTS):
         return False
-    return all(f["ann"] in MODELLED_ANN for f in case["prog"]["fields"]) and not case["prog"].get("ret") and not case["prog"].get("chain")
+    return all(f["ann"] in MODELLED_ANN for f in case["prog"]["fields"]) and not case["prog"].get("ret") and not case["prog"].get("chain") and not case["prog"].get("inherit")
 
 
 def world_of(prog):
@@ -767,19 +772,14 @@ def gen_prog(rng, small=False):
     local = rng.random() < 0.5
     nf = 1 if small else rng.choice([1, 1, 2, 2, 3])
     fields = []
-    used = set()
     anns = ["ref", "ref", "ref", "slist", "plain", "list", "dict", "opt"]
     for i in range(nf):
         ann = rng.choice(anns)
-        if ann == "opt" and local:
-            ann = "ref"          # Optional['X'] in a function-local declaration does not resolve even sequentially (C17)
         to = ""
         if ann != "plain":
-            free = [n for n in TARGET_NAMES if n not in used] or TARGET_NAMES
-            # a name inside a generic is registered under the bare name: use it once per declaration (C17)
-            to = rng.choice(free) if ann in ("list", "dict", "opt") else rng.choice(TARGET_NAMES)
-            if ann in ("list", "dict", "opt"):
-                used.add(to)
+            # (since C17's fixes a name may be used several times, also inside generics, and Optional['X'] resolves
+            # in function-local declarations too)
+            to = rng.choice(TARGET_NAMES)
             if rng.random() < 0.12:
                 to = "U"
         fields.append({"ann": ann, "to": to})
@@ -788,6 +788,8 @@ def gen_prog(rng, small=False):
     prog = {"kind": kind, "local": local, "fields": fields}
     if rng.random() < 0.15:
         prog["chain"] = True
+    if kind == "cls" and rng.random() < 0.2:
+        prog["inherit"] = True
     if kind == "fn" and not local and rng.random() < 0.3:
         prog["ret"] = True      # (a function-local function with a forward-referenced result fails sequentially: C17)
     return prog
@@ -857,6 +859,7 @@ BASE_PROGS = [
     {"kind": "cls", "local": True, "fields": [{"ann": "list", "to": "B"}]},
     {"kind": "cls", "local": False, "fields": [{"ann": "opt", "to": "B"}, {"ann": "plain", "to": ""}]},
     {"kind": "fn", "local": False, "fields": [{"ann": "dict", "to": "B"}]},
+    {"kind": "cls", "local": True, "inherit": True, "fields": [{"ann": "ref", "to": "B"}]},
 ]
 
 
@@ -1100,7 +1103,7 @@ class C20(Check):
             hr = any("reg" in op for ops in case["threads"] for op in ops)
             return f"registry/cache={case['cache']}/threads={len(case['threads'])}/{'with-register' if hr else 'lookups-only'}"
         p = case["prog"]
-        anns = "+".join(f["ann"] + ("!" if f["to"] == "U" else "") for f in p["fields"]) + ("->ref" if p.get("ret") else "") + ("+chain" if p.get("chain") else "")
+        anns = "+".join(f["ann"] + ("!" if f["to"] == "U" else "") for f in p["fields"]) + ("->ref" if p.get("ret") else "") + ("+chain" if p.get("chain") else "") + ("+inherit" if p.get("inherit") else "")
         pre = "?"
         if isinstance(io, dict) and "trace" in io:
             tr = io["trace"]
